@@ -139,7 +139,9 @@ class Inventory:
                 for b in self.repo.mro(ci):
                     self.recipe_provider_classes.add(b.qual)
             # constructor arguments that are providers themselves
-            call: ast.Call = av[2]
+            call = av[2]
+            if call is None:
+                return
             for a in list(call.args) + [k.value for k in call.keywords]:
                 for sub in self.R.resolve(a, av[3], av[3].module if av[3] else ci.module):
                     self._note_instance(sub, depth + 1)
